@@ -31,7 +31,7 @@ ASSUMPTIONS = [
 SHARDS = {"quick": 8, "thorough": 16}
 TIMEOUT = {"quick": 600, "thorough": 3600}
 MIN_CASES = {"quick": 40_000, "thorough": 500_000}
-REQUIRED_COUNTERS = ["postconditions_evaluated", "tier_i_exact", "tier_ii_exact", "tier_iii_tolerant", "format_errors_seen", "build_update_calls"]
+REQUIRED_COUNTERS = ["postconditions_evaluated", "tier_i_exact", "tier_ii_exact", "tier_iii_tolerant", "format_errors_seen", "build_update_calls", "metadata_style_1", "metadata_style_2"]
 
 NUM_RE = re.compile(r"^[+-]?(\d+(\.\d*)?|\.\d+)([eE][+-]?\d+)?$")
 INT_FORMATS = ["uint8", "uint16", "uint32", "uint64", "int"]
@@ -94,22 +94,33 @@ def fr(x):
     return Fraction(x)
 
 
-def make_char(fmt, mn, mx, step):
+def make_char(fmt, mn, mx, step, style: int = 0):
+    """style 0: metadata passed to the constructor (IP, cache files); 1: assigned to the attributes after construction
+    (what the BLE GATT fetch does: add_char(uuid, iid=..), then hap_char.minValue = ...); 2: the object first carried OTHER
+    limits and was used with them (metadata re-read after a configuration change)."""
     from aiohomekit.model import Accessory
 
     acc = Accessory(1)
     svc = acc.add_service("0000FF00-0000-1000-8000-0026BB765291")
-    ch = svc.add_char(
-        VENDOR_TYPE,
-        format=fmt,
-        min_value=mn,
-        max_value=mx,
-        min_step=step,
-        perms=["pr", "pw"],
-        unit=None,
-        description=None,
-        valid_values=None,
-    )
+    if style == 0:
+        ch = svc.add_char(VENDOR_TYPE, format=fmt, min_value=mn, max_value=mx, min_step=step, perms=["pr", "pw"], unit=None,
+                          description=None, valid_values=None)
+        return svc, ch
+    if style == 1:
+        ch = svc.add_char(VENDOR_TYPE, perms=["pr", "pw"], unit=None, description=None, valid_values=None)
+    else:
+        from aiohomekit.model.characteristics.characteristic import check_convert_value
+
+        ch = svc.add_char(VENDOR_TYPE, format=fmt, min_value=0, max_value=1, min_step=1, perms=["pr", "pw"], unit=None,
+                          description=None, valid_values=None)
+        try:
+            check_convert_value(1, ch)
+        except Exception:  # noqa: BLE001
+            pass
+    ch.format = fmt
+    ch.minValue = mn
+    ch.maxValue = mx
+    ch.minStep = step
     return svc, ch
 
 
@@ -274,11 +285,16 @@ def judge_numeric(fmt, mn, mx, step, v, result, desc, tier_box):
 def run_case(ctx, fmt, mn, mx, step, value, entry, origin=None) -> None:
     from aiohomekit.model.characteristics.characteristic import check_convert_value
 
-    svc, ch = make_char(fmt, mn, mx, step)
+    import zlib
+
+    style = zlib.crc32(repr((fmt, mn, mx, step, value, entry)).encode()) % 4  # 0, 0, 1, 2: deterministic per case
+    style = 0 if style == 3 else style
+    ctx.count(f"metadata_style_{style}")
+    svc, ch = make_char(fmt, mn, mx, step, style)
     nontrivial = value is not None
     ctx.case(fmt, repr(mn), repr(mx), repr(step), repr(value), type(value).__name__, entry, nontrivial=nontrivial,
              sample={"format": fmt, "min": mn, "max": mx, "step": step, "input": repr(value), "entry": entry}, kind=(fmt, entry))
-    replay = {"fmt": fmt, "mn": mn, "mx": mx, "step": step, "value": value, "entry": entry}
+    replay = {"fmt": fmt, "mn": mn, "mx": mx, "step": step, "value": value, "entry": entry, "metadata_style": style}
     result = exc = None
     try:
         if entry == "build_update":
